@@ -8,14 +8,18 @@ PROP = {
                    "allocation; larger seeded random programs on top, a sample under Miri (Stacked and Tree Borrows). "
                    "Exhaustive inside the bound, exploration beyond it; not a proof for unbounded sizes."),
     "level_note": ("Trusted: the root types' own accessors as ground truth; the harness wrapper DynBuf that type-erases nested "
-                   "views (it only forwards). Pool buffers (BufferRef) are exercised natively under C07, not here."),
+                   "views (it only forwards). Pool buffers (BufferRef) only exist next to a driver and cannot run under Miri: legs "
+                   "`pool-buffers*` run seeded programs {fill + advance/advance_to/set_len, set_len down, set_capacity up / below "
+                   "the recorded length / 0, fill through slice(range) and uninit()} over a buffer popped from the fallback pool "
+                   "(polling driver) and a buffer handed out by a managed read on the io_uring ring, exploration only."),
     "technique": "runtime monitoring: shadow-model monitor over enumerated + seeded view programs, Miri (UB/aliasing/uninit)",
     "rule": ("programs = root buffer kind x shape x sequence of view constructions (slice(range), uninit(), "
              "slice+flatten, vectored slice(begin)/slice_mut(begin), owned_iter/next) and fills (append via "
              "advance/advance_to/set_len, I/O-style via advance_to, vectored via set_len/advance_vec_to); "
              "enumerated exhaustively up to the stated capacity/step bound through an odometer over all choice "
              "sequences, plus seeded random programs with larger bounds; a case is non-trivial if it has nesting "
-             "depth >= 2 or at least one fill; distinct = distinct (leg, root kind, view/fill-kind path) strings"),
+             "depth >= 2 or at least one fill; distinct = distinct (leg, root kind, view/fill-kind path) strings; pool-buffer legs: a case "
+             "is one program, distinct = (driver, buffer length, capacity shrunk below the recorded length?, filled through a view?)"),
     "assumptions": [
         "fills respect the unsafe preconditions of SetLen as seen through the view (bytes written before being recorded)",
         "ground truth for roots is the root type's own API (Vec::len/capacity/as_ptr ...), trusted",
@@ -41,5 +45,12 @@ PROP = {
          "miriflags": MIRI_BASE,
          "args": ["--kinds", 0x80, "--ex-steps", 0, "--iters", 60, "--rnd-cap", 8, "--rnd-steps", 4, "--budget-ms", 30000],
          "timeout_s": 300},
+        # pool buffers (BufferRef): only exist next to a driver -> native crate vdrv, both drivers
+        {"name": "pool-buffers", "build": "plain", "pkg": "vdrv", "cmd": "c10p", "shards": 2,
+         "args": {"quick": ["--iters", 6000, "--budget-ms", 40000], "thorough": ["--iters", 200000, "--budget-ms", 300000]},
+         "timeout_s": {"quick": 200, "thorough": 600}},
+        {"name": "pool-buffers-asan", "build": "asan", "pkg": "vdrv", "cmd": "c10p", "shards": 1,
+         "args": {"quick": ["--iters", 2000, "--budget-ms", 40000], "thorough": ["--iters", 50000, "--budget-ms", 300000]},
+         "timeout_s": {"quick": 200, "thorough": 600}},
     ],
 }
